@@ -27,6 +27,12 @@ func NewBinaryFrom(stream io.Reader) (Binary, error) {
 }
 
 func (b Binary) MarshalJSON() ([]byte, error) {
+	// empty binary data is an empty base64 string: a nil slice
+	// (e.g. values.Parse([]byte(nil))) must not be encoded as null
+	if b == nil {
+		return []byte(`""`), nil
+	}
+
 	return jettison.MarshalOpts([]byte(b),
 		jettison.NoStringEscaping(),
 		jettison.NoCompact(),
